@@ -572,6 +572,8 @@ def check_own_status(ctx, F):
             first_cb = None
             clears = []
             ret = None
+            snaps = {}
+            early = None
             for i, ev in enumerate(p):
                 if ev[0] == "icall" or (ev[0] == "call" and ev[2] is not None and F.fn(ev[2])["name"] in cbs):
                     if first_cb is None:
@@ -580,13 +582,27 @@ def check_own_status(ctx, F):
                     clears.append(i)
                 elif ev[0] == "write" and (ev[2] or "").endswith("._taskStatus"):
                     clears.append(i)
+                elif ev[0] == "decl":
+                    node = ev[1] if isinstance(ev[1], dict) else {}
+                    for v in (node.get("vars") or [node]):
+                        if isinstance(v, dict) and v.get("n") and any(m.get("k") == "mem" and m.get("n") == "_taskStatus" for m in walk(v.get("init") or {})):
+                            snaps[v["n"]] = i
                 elif ev[0] == "ret":
                     ret = ev[2]
+                    m = re.match(r"^L:(\w+)$", ret or "")
+                    if m and m.group(1) in snaps:
+                        # a named copy of the region-scope status: it stands for the status as of its declaration
+                        ret = "snapshot of _taskStatus"
+                        last_cb = max([j for j, e2 in enumerate(p) if e2[0] == "icall" or (e2[0] == "call" and e2[2] is not None and F.fn(e2[2])["name"] in cbs)] or [-1])
+                        if snaps[m.group(1)] < last_cb:
+                            early = m.group(1)
             if first_cb is None:
                 raise AnalysisBroken("%s: no callback call found on a path (expected %s)" % (site, "/".join(cbs)))
             if ret is None or "_taskStatus" not in ret:
                 raise AnalysisBroken("%s returns `%s`: not the region-scope status - the rule does not know this idiom" % (site, ret))
-            if not any(c < first_cb for c in clears):
+            if early:
+                bad = "returns `%s`, a copy of control._taskStatus taken before its callbacks ran: what the state itself reports is dropped" % early
+            elif not any(c < first_cb for c in clears):
                 bad = "returns control._taskStatus without clearing it before its callbacks run: it still holds what ran earlier in the region scope"
             elif any(c > first_cb for c in clears):
                 bad = "clears control._taskStatus after its callbacks ran: what the state itself reported is dropped"
